@@ -21,19 +21,19 @@ CHECKS = {
         ref="DESIGN.md §3 C10"),
     "C11": dict(
         category="other",
-        text="Determinism as absence of sources: exact census that no HashMap/HashSet order-exposing operation, no clock/env/pid/hash-seed/address/thread source (other than the timestamp confined to the heap-log File), no cfg!(debug_assertions)/debug_assert, and no profile-dependent arithmetic on FML values or CLI numerics occurs in code reachable from compile/serialize/load/VM/disassembler; the Cargo profiles agree on the panic strategy. Index/length arithmetic is exempt by provenance (listed per site), which is judgement — hence not 'proof'.",
+        text="Determinism as absence of sources: exact census that no HashMap/HashSet order-exposing operation, no clock/env/pid/hash-seed/address/thread source (other than the timestamp confined to the heap-log File), no cfg!(debug_assertions)/debug_assert, and no profile-dependent arithmetic on FML values or CLI numerics occurs in code reachable from compile/serialize/load/VM/disassembler; the Cargo profiles agree on the panic strategy. The clap definition of every sub-command is self-consistent (unique ids / long / short names, every id named by a relation attribute exists): clap validates this only in builds with debug assertions, so an inconsistency makes the dev binary panic where the release binary runs (R11.cli). Index/length arithmetic is exempt by provenance (listed per site), which is judgement — hence not 'proof'.",
         note=TB + "; std/indexmap/third-party crates deterministic for equal inputs; LLVM computes the same results in both profiles for profile-independent operations",
         technique="static analysis: call-graph-scoped census + taint of CLI numerics + operator/operand-type classification on HIR",
         ref="DESIGN.md §3 C11"),
     "C14": dict(
         category="other",
-        text="Reference semantics as type/ownership facts (Pointer: Copy with an index-only Reference payload; no clone of heap objects or their element storage in the VM; element storage written only by set_element/set_field on the heap-resident object; heap append-only) plus handler-template rules for dispatch order, arity checks and get/set/operator sugar. Structural, each rule a necessary condition. Identity: every object / array creation allocates and yields a fresh reference (C05's Object/Array rows as a presupposition); array get/set arity probed through the dispatch entry. A heap slot, once filled, is never overwritten (no index assignment / iter_mut / swap on the heap vector).",
+        text="Reference semantics as type/ownership facts (Pointer: Copy with an index-only Reference payload; no clone of heap objects or their element storage in the VM; element storage written only by set_element/set_field on the heap-resident object; heap append-only) plus handler-template rules for dispatch order, arity checks and get/set/operator sugar. Structural, each rule a necessary condition. Identity: every object / array creation allocates and yields a fresh reference (C05's Object/Array rows as a presupposition); array get/set arity probed through the dispatch entry. A heap slot, once filled, is never overwritten (no index assignment / iter_mut / swap on the heap vector). The parent is asked only when the receiver's method table has no entry under the call's name: a member is never passed over because of its parameter count or kind.",
         note=TB,
         technique="static analysis: ADT/impl facts, who-may-write / who-may-call / clone census on HIR+MIR call graph; effect templates of the dispatch functions",
         ref="DESIGN.md §3 C14"),
     "C16": dict(
         category="other",
-        text="Heap-log contract decided structurally: the heap vector grows only in Heap::allocate, where size update → one `<ns>,A,<updated size>` record → one push are ordered and unconditional (apart from the log-is-Some test); allocate is called exactly once, outside loops, by the array and the object evaluator only; record templates equal the documented ones; the size function is pure in the value's shape with a positive constant term; max_size is write-only, log is touched only by the log writer, the --heap-size number reaches only set_size and no overflow-sensitive arithmetic. Timestamp order and file-system failures are not decided. Heap.size is written by allocate only.",
+        text="Heap-log contract decided structurally: the heap vector grows only in Heap::allocate, where size update → one `<ns>,A,<updated size>` record → one push are ordered and unconditional (apart from the log-is-Some test); allocate is called exactly once, outside loops, by the array and the object evaluator only; record templates equal the documented ones; the size function is pure in the value's shape with a positive constant term; max_size is write-only, log is touched only by the log writer, the --heap-size number reaches only set_size and no overflow-sensitive arithmetic. Timestamp order and file-system failures are not decided. Heap.size is written by allocate only. The callers of allocate are counted among the functions main can reach.",
         note=TB + "; S9 record formats taken from the property statement",
         technique="static analysis: who-may-write/who-may-call census, structured ordering in allocate, format_args templates captured from the expanded AST, CLI taint",
         ref="DESIGN.md §3 C16"),
@@ -54,7 +54,7 @@ CHECKS.update({
         ref="DESIGN.md §3 C12"),
     "C13": dict(
         category="other",
-        text="Evaluation order decided on the templates: along every control-flow path of every arm's template the recursive compiles occur in S2's order exactly once (list children iterated forwards), the conditional's branches hang off the truthy/falsy edges of Branch, the loop's path language is cond (body cond)*, the compound-array arm builds exactly the documented rewrite (size once and first, counter from 0 step 1 while < size, initializer once per iteration before the store) and only side-effect-free initializer kinds are evaluated once; VM-side orientation (pop_sequence, frames, print, object slots) from the handler templates; C02's label discipline (every jump reaches the label of its own construct) is evaluated as a presupposition. Sound for the ordering statement relative to S1.",
+        text="Evaluation order decided on the templates: along every control-flow path of every arm's template the recursive compiles occur in S2's order exactly once (list children iterated forwards), the conditional's branches hang off the truthy/falsy edges of Branch, the loop's path language is cond (body cond)*, the compound-array arm builds exactly the documented rewrite (size once and first, counter from 0 step 1 while < size, initializer once per iteration before the store) and only side-effect-free initializer kinds are evaluated once; VM-side orientation (pop_sequence, frames, print, object slots) from the handler templates; C02's label discipline (every jump reaches the label of its own construct) is evaluated as a presupposition. Sound for the ordering statement relative to S1. Every instruction handler moves the instruction pointer exactly as its row says (C05's handler rows as a presupposition: an extra or missing bump skips or repeats instructions).",
         note=TB + "; straight-line VM execution trusted",
         technique="static analysis: symbolic execution into templates, CFG path-language check, structural matching of the synthetic rewrite AST",
         ref="DESIGN.md §3 C13"),
@@ -62,14 +62,14 @@ CHECKS.update({
 
 CHECKS["C05"] = dict(
     category="other",
-    text="Structural conformance of every opcode handler to the abstract machine S1: each eval_* function, with the state-component methods inlined down to Vec/HashMap/slice primitives on the State's fields, is executed symbolically; every successful path is normalised to abstract-machine events and compared with the opcode's S1 row (values popped in which order and where each flows, constant kind demanded, ip effect through the label map / method start, frames = [receiver]++arguments in call order++null×locals with return to the next instruction, Return restoring the saved address, Branch polarity per truthiness case). The dispatcher maps each opcode to its own handler and operands; State::from initialises globals to null, indexes functions by name and builds the entry frame; the VM contains no compiler-private names. Necessary, close to sufficient for straight-line instruction semantics; heap/HashMap implementations and run-time values are not decided.",
+    text="Structural conformance of every opcode handler to the abstract machine S1: each eval_* function, with the state-component methods inlined down to Vec/HashMap/slice primitives on the State's fields, is executed symbolically; every successful path is normalised to abstract-machine events and compared with the opcode's S1 row (values popped in which order and where each flows, constant kind demanded, ip effect through the label map / method start, frames = [receiver]++arguments in call order++null×locals with return to the next instruction, Return restoring the saved address, Branch polarity per truthiness case). The dispatcher maps each opcode to its own handler and operands; State::from initialises globals to null, indexes functions by name and builds the entry frame; the VM contains no compiler-private names. Necessary, close to sufficient for straight-line instruction semantics; heap/HashMap implementations and run-time values are not decided. Branch truthiness is decided world by world (the value kinds each path admits), and Print's format scanner is C15's R15.fsm as a presupposition.",
     note=TB + "; symbolic executor + std models",
     technique="static analysis: symbolic execution of the handlers' HIR into effect templates + event-level comparison with an abstract machine table",
     ref="DESIGN.md §3 C05")
 
 CHECKS["C03"] = dict(
     category="other",
-    text="Inverse-ness decided as agreement of two syntax-directed templates: writer (Program::serialize ↓) and reader (Program::from_bytes ↓) are executed symbolically down to write_all/read_exact; for the 7 constant kinds, the 17 opcodes and the program frame the extracted layouts coincide token by token (tag, field order and destination, width, endianness, counts, element kinds); tag tables injective and mutually inverse; primitive pairs inverse by construction; narrowing casts range-asserted; loader appends method code in pool order while the writer emits each method's own range forwards; labels derived by one shared function; the loaded pool holds the file's constants one-to-one in file order, no sequence passes through a reordering/deduplicating collection, decoded numbers reach their fields unchanged, and the CLI's input reader is byte-transparent (file/stdin under Box/BufReader, or a Cursor over the bytes as read). Necessary and, with the primitive rules, essentially sufficient at the byte level; 'same behaviour when executed' follows only together with C05. On every reader path that builds a Method the instructions read are appended once with the range starting at the previous length; the CLI's input reader is the file / stdin under byte-transparent wrappers, is not used before it is stored, and nobody but the forwarding Read/BufRead impls and whole-input reads takes bytes from it. Every instruction the compiler emits lies in a method's range (C02's R2.methods as a presupposition), so writing method by method loses nothing.",
+    text="Inverse-ness decided as agreement of two syntax-directed templates: writer (Program::serialize ↓) and reader (Program::from_bytes ↓) are executed symbolically down to write_all/read_exact; for the 7 constant kinds, the 17 opcodes and the program frame the extracted layouts coincide token by token (tag, field order and destination, width, endianness, counts, element kinds); tag tables injective and mutually inverse; primitive pairs inverse by construction; narrowing casts range-asserted; loader appends method code in pool order while the writer emits each method's own range forwards; labels derived by one shared function; the loaded pool holds the file's constants one-to-one in file order, no sequence passes through a reordering/deduplicating collection, decoded numbers reach their fields unchanged, and the CLI's input reader is byte-transparent (file/stdin under Box/BufReader, or a Cursor over the bytes as read). Necessary and, with the primitive rules, essentially sufficient at the byte level; 'same behaviour when executed' follows only together with C05. On every reader path that builds a Method the instructions read are appended once with the range starting at the previous length; the CLI's input reader is the file / stdin under byte-transparent wrappers, is not used before it is stored, and nobody but the forwarding Read/BufRead impls and whole-input reads takes bytes from it. Every instruction the compiler emits lies in a method's range (C02's R2.methods as a presupposition), so writing method by method loses nothing. The writer's counterpart of the loader rule: every constant is written through its own serializer as it stands in the pool (no renaming / normalising on the way out).",
     note=TB + "; to_le_bytes/from_le_bytes mutually inverse; symbolic executor + std models",
     technique="static analysis: symbolic execution of serializer and loader into layout templates + token-wise agreement, tag-table inversion, cast/assert census",
     ref="DESIGN.md §3 C03")
@@ -82,7 +82,7 @@ CHECKS["C04"] = dict(
 
 CHECKS["C07"] = dict(
     category="other",
-    text="The grammar is analysed as source and its semantic actions in their type-checked form. Structure (reader for the LALRPOP subset): the operator strata and their operator sets (13 operators, one level each) equal the README's precedence table; the dangling else is resolved by the open/closed parameterisation; block and top-level lists have a mandatory first element. Actions: every alternative's action — LALRPOP compiles it into a function __actionN of the generated parser, which the fact dumper exports with rustc's resolution and types, and the generated parser itself documents which production runs which action — is executed symbolically with its symbol positions as variables (constructor helpers, IntoBoxed/From impls and composite actions followed); the value each of the 93 alternatives builds must equal the documented tree of that syntactic form: every operator level is the accumulation fold(CallMethod{object: ACC, name: spelling(op), arguments: [next]}) over its tail forwards from the head (left associativity), field/call chains fold AccessField from the object, a[i] / a[i] <- v build AccessArray/AssignArray with array, index, value from their positions, literals denote themselves, statement lists keep their first element in front, choice rules hand on their only symbol, every operator token builds its Operator variant; terminal ↦ Operator ↦ as_str is the identity. Lexer: skip terminals have empty actions and all five regex terminals are language-equivalent (NFA→DFA over an abstract alphabet) to the reference regexes; LALR(1) conflict-freedom by LALRPOP at build time. Partial by design: print→reparse idempotence and decoration-insensitivity at every token boundary are language-level statements over all inputs and are NOT decided (lexer/unambiguity rules are necessary conditions only).",
+    text="The grammar is analysed as source and its semantic actions in their type-checked form. Structure (reader for the LALRPOP subset): the operator strata and their operator sets (13 operators, one level each) equal the README's precedence table; the dangling else is resolved by the open/closed parameterisation; block and top-level lists have a mandatory first element. Actions: every alternative's action — LALRPOP compiles it into a function __actionN of the generated parser, which the fact dumper exports with rustc's resolution and types, and the generated parser itself documents which production runs which action — is executed symbolically with its symbol positions as variables (constructor helpers, IntoBoxed/From impls and composite actions followed); the value each of the 93 alternatives builds must equal the documented tree of that syntactic form: every operator level is the accumulation fold(CallMethod{object: ACC, name: spelling(op), arguments: [next]}) over its tail forwards from the head (left associativity), field/call chains fold AccessField from the object, a[i] / a[i] <- v build AccessArray/AssignArray with array, index, value from their positions, literals denote themselves, statement lists keep their first element in front, choice rules hand on their only symbol, every operator token builds its Operator variant; terminal ↦ Operator ↦ as_str is the identity. Lexer: skip terminals have empty actions and all five regex terminals are language-equivalent (NFA→DFA over an abstract alphabet) to the reference regexes; the abstract alphabet has representatives for ASCII white space beyond space/tab/CR/LF and for non-ASCII white space (the lexer's `\\s` is Unicode White_Space); LALR(1) conflict-freedom by LALRPOP at build time. Partial by design: print→reparse idempotence and decoration-insensitivity at every token boundary are language-level statements over all inputs and are NOT decided (lexer/unambiguity rules are necessary conditions only).",
     note=TB + "; LALRPOP's conflict check and longest-match lexer; S6 from the README",
     technique="static analysis: structural analysis of the LALRPOP grammar + symbolic execution of the type-checked semantic actions (generated parser's action functions) compared with a table of documented trees + regular-language equivalence of lexer regexes",
     ref="DESIGN.md §3 C07")
@@ -94,7 +94,7 @@ CHECKS["C09"] = dict(
     ref="DESIGN.md §3 C09")
 CHECKS["C15"] = dict(
     category="other",
-    text="print decided as a state machine plus renderer shapes: the body of the loop over the format's chars() (found in eval_print or a helper it calls) is abstractly interpreted once per cell of {escaped, plain} × {~ backslash quote n t r OTHER} — character and scanner state fixed, helpers inlined — and the text appended, the arguments taken and the state afterwards must equal S5 in every cell (covers every Unicode format string because the loop is over chars() and OTHER is a symbolic character); every successful path of eval_print runs that loop; both count-mismatch directions fail and null is pushed; per value kind the rendering shape equals S5 (literal texts, payload to_string, [..] with ', ', three object templates selected by parent/fields, name=value, sort on the field name preceding the traversal, a path-scoped cycle guard); the string-literal terminal admits exactly the VM's escape set and the String alternative builds the token text without its quotes (value of its type-checked action). The renderer print calls is exactly one call of the recursive renderer on a fresh guard with the result returned unchanged (no memo).",
+    text="print decided as a state machine plus renderer shapes: the body of the loop over the format's chars() (found in eval_print or a helper it calls) is abstractly interpreted once per cell of {escaped, plain} × {~ backslash quote n t r OTHER} — character and scanner state fixed, helpers inlined — and the text appended, the arguments taken and the state afterwards must equal S5 in every cell (covers every Unicode format string because the loop is over chars() and OTHER is a symbolic character); every successful path of eval_print runs that loop; both count-mismatch directions fail and null is pushed; per value kind the rendering shape equals S5 (literal texts, payload to_string, [..] with ', ', three object templates selected by parent/fields, name=value, sort on the field name preceding the traversal, a path-scoped cycle guard); the string-literal terminal admits exactly the VM's escape set and the String alternative builds the token text without its quotes (value of its type-checked action). The renderer print calls is exactly one call of the recursive renderer on a fresh guard with the result returned unchanged (no memo). The VM's stdout sink writes exactly the text it is given, once, and no function other than that sink, the disassembler's listing and the stage-output sink obtains stdout (R15.sink: no Drop / banner / prompt bytes).",
     note=TB + "; i32/bool to_string and slice::join",
     technique="static analysis: cell-wise abstract interpretation of the scanner loop body, handler templates, format_args templates of the renderers, grammar/regex analysis",
     ref="DESIGN.md §3 C15")
@@ -107,7 +107,7 @@ CHECKS["C01"] = dict(
     ref="DESIGN.md §3 C01")
 CHECKS["C06"] = dict(
     category="other",
-    text="Explicitly partial: decided are the serde derive/attribute facts of the AST types, the per-format crate tables in both directions, extension/name tables vs S7 and their mutual inverse-ness, the format-selection logic of the parse and compile actions (explicit flag, else extension), one shared bytecode::compile, the parse action's single complete write into a truncated output, that serialize/deserialize return the format crate's own result for exactly their argument (symbolic execution: no post-processing of the text), that stage inputs are decoded as a whole (no chunk-wise decoding), and that no stage boundary deserialises the recursive AST through a depth-limited entry point (three genuine findings on file). NOT decided: string fidelity through serde_json/serde_yaml/serde_lexpr for all Unicode strings (third-party behaviour), the bash wrapper, stdin/stdout plumbing at run time. The input side of every stage is byte-transparent and read by its consumer only (same reader obligations as C03/C04).",
+    text="Explicitly partial: decided are the serde derive/attribute facts of the AST types, the per-format crate tables in both directions, extension/name tables vs S7 and their mutual inverse-ness, the format-selection logic of the parse and compile actions (explicit flag, else extension), one shared bytecode::compile, the parse action's single complete write into a truncated output, that serialize/deserialize return the format crate's own result for exactly their argument (symbolic execution: no post-processing of the text), that stage inputs are decoded as a whole (no chunk-wise decoding), and that no stage boundary deserialises the recursive AST through a depth-limited entry point (three genuine findings on file). NOT decided: string fidelity through serde_json/serde_yaml/serde_lexpr for all Unicode strings (third-party behaviour), the bash wrapper, stdin/stdout plumbing at run time. The input side of every stage is byte-transparent and read by its consumer only (same reader obligations as C03/C04). Each CLI action is also executed symbolically with its stages opaque: on every successful path each stage runs once and receives exactly the value the previous stage returned (R6.handoff: parse→serialize, deserialize→compile→write, parse→compile→evaluate, load→evaluate).",
     note=TB + "; serde derive generates mutually inverse impls for attribute-free types; third-party format crates round-trip their own output (not analysed)",
     technique="static analysis: ADT/derive/attribute facts from the expanded AST, match-table extraction, call-graph and who-may-call census of depth-limited deserialisers",
     ref="DESIGN.md §3 C06")
